@@ -561,6 +561,25 @@ func (d *Driver) FairPhase(rounds int) string {
 		}
 		return "implementation panicked during the fault-free phase: " + d.PanicMsg
 	}
+	// a replica whose raft role contradicts the membership (a promoted non-voting replica that
+	// the simulated operator restarted with its old IsNonVoting / IsWitness configuration: raft
+	// launches it in that role whatever the membership says) is an operator error, not a fault
+	{
+		var best *Node
+		for _, id := range d.C.ids() {
+			if n := c.Nodes[id]; best == nil || n.Applied > best.Applied {
+				best = n
+			}
+		}
+		for _, id := range d.C.ids() {
+			if best != nil && !d.Down[id] && best.Mem.Voters[id] {
+				if role := Inspect(c.Nodes[id]).Role; (role == 4 || role == 5) && c.Nodes[id].Mem.Voters[id] {
+					d.Inconclusive = true
+					return ""
+				}
+			}
+		}
+	}
 	desc := ""
 	for _, id := range d.C.ids() {
 		st := Inspect(c.Nodes[id])
@@ -612,6 +631,9 @@ func (d *Driver) FairPhase(rounds int) string {
 		if best != nil {
 			maxMember, maxRemoved, stale := uint64(0), uint64(0), false
 			for _, id := range d.C.ids() {
+				if d.Down[id] {
+					continue
+				}
 				st := Inspect(c.Nodes[id])
 				if best.Mem.Voters[id] {
 					if st.LastIndex > maxMember {
@@ -646,6 +668,27 @@ func (d *Driver) FairPhase(rounds int) string {
 		}
 		sort.Strings(missing)
 		return fmt.Sprintf("a proposal completed, but the reads issued on every member and the addition of non-voting replica %d did not complete with catch-up within the remaining fault-free rounds%s: %s;%s", newMember, down, strings.Join(missing, ", "), desc)
+	}
+	// without CheckQuorum and PreVote a replica ignores messages of a lower-term leader; a voter in
+	// that position times out and campaigns, a witness never does: a witness that learned a higher
+	// term from a failed candidate stays behind until something else raises the leader's term
+	if !c.CQ && !c.PV {
+		leaderTerm, witnessTerm := uint64(0), uint64(0)
+		for _, id := range d.C.ids() {
+			if d.Down[id] {
+				continue
+			}
+			st := Inspect(c.Nodes[id])
+			if st.Role == 3 && st.Term > leaderTerm {
+				leaderTerm = st.Term
+			}
+			if st.Role == 5 && st.Term > witnessTerm {
+				witnessTerm = st.Term
+			}
+		}
+		if leaderTerm > 0 && witnessTerm > leaderTerm {
+			down = " witness-at-higher-term-ignored" + down
+		}
 	}
 	return fmt.Sprintf("no leader+commit+catch-up within %d fault-free rounds%s:%s", rounds, down, desc)
 }
